@@ -101,6 +101,10 @@ pub enum MutOp {
     RowsMutSet { r: usize, c: usize },
     ColMutSet { c: usize, i: usize },
     CellsMutSet { i: usize },
+    /// `*get_unchecked_mut((c, r)) = v` - only executed for in-range coordinates
+    UncheckedSet { c: usize, r: usize },
+    /// `get_unchecked_row_mut(r)[c] = v` - only executed for an in-range row
+    UncheckedRowSet { r: usize, c: usize },
 }
 
 /// Which borrow-carrying value a `Leak` step obtains, partly consumes and forgets.
@@ -263,6 +267,8 @@ impl MutOp {
             MutOp::RowsMutSet { .. } => "rows_mut_set",
             MutOp::ColMutSet { .. } => "col_mut_set",
             MutOp::CellsMutSet { .. } => "cells_mut_set",
+            MutOp::UncheckedSet { .. } => "get_unchecked_mut_set",
+            MutOp::UncheckedRowSet { .. } => "get_unchecked_row_mut_set",
         }
     }
     pub fn view_name(&self) -> &'static str {
